@@ -126,7 +126,7 @@ theorem pdfRef_eq (d : Draw ν) :
 
 theorem sameAlpha_eq {d : Draw ν} (h : d.sameAlpha = true) : d.fill.alpha = d.stroke.alpha := by
   simp [Draw.sameAlpha] at h
-  exact h.2
+  omega
 
 /-- one `PDF.RenderPath` call from ANY cache: the interpreter paints the reference and ends in the state the
 new cache claims; cache well-formedness is kept -/
